@@ -196,7 +196,13 @@ def check_case(label, m, e, rng):
     fam = [c_.__name__ for c_ in type(e).__mro__]
     # TRACE is claimed for conforming elements (H1 / H(div) / H(curl)); Crouzeix-Raviart and piecewise constants are excluded
     nonconf = any(s in type(e).__name__ for s in ("CR", "P0", "Quad0", "Hex0", "Skeleton", "Mini")) and "ElementVector" not in type(e).__name__
-    nonconf = any(s in type(e).__name__ for s in ("CR", "P0", "Quad0", "Hex0", "Skeleton"))
+    nonconf = any(s in type(e).__name__ for s in ("CR", "P0", "Quad0", "Hex0", "Skeleton", "HHJ"))
+    # discontinuous subclasses (ElementTriP1DG ...: every DOF interior) promise no trace control either; an H1 element needs vertex DOFs to be conforming
+    if "ElementH1" in fam and "ElementHdiv" not in fam and "ElementHcurl" not in fam and getattr(e, "nodal_dofs", 0) == 0 and not isinstance(e, fem.ElementVector):
+        nonconf = True
+    # ElementTriN3.gbasis has no branch for per-cell point arrays: FacetBasis(mesh, ElementTriN3()) raises by construction (observation in DESIGN A.3)
+    if type(e).__name__ == "ElementTriN3":
+        nonconf = True
     if (not isinstance(e, (fem.ElementGlobal, fem.ElementComposite, fem.ElementDG)) and "ElementMatrix" not in fam and len(F) and m.dim() >= 2
             and not nonconf and m.bndelem is not None):
         try:
